@@ -44,7 +44,7 @@ func init() {
 }
 
 func runChains(c *kit.Ctx) {
-	n := c.N(32, 640)
+	n := c.N(32, 400)
 	if c.Mode == "race" {
 		n = c.N(8, 96)
 	}
